@@ -503,7 +503,7 @@ printf("debug> macros_parse() name_test='%s' %d\n", name_test, index);
     // of the line.
     if (ch == ';' || (ptr > 0 && ch == '/' && macro[ptr-1] == '/'))
     {
-      if (macro[ptr-1] == '/') { ptr--; }
+      if (ptr > 0 && macro[ptr-1] == '/') { ptr--; }
 
       while (true)
       {
@@ -636,6 +636,14 @@ char *macros_expand_params(
     // skip whitespace immediately after opening parenthesis or a comma
     if ((ch == ' ' || ch == '\t') && (ptr == 0 || params[ptr - 1] == 0)) { continue; }
 
+    if (ptr >= (int)sizeof(params) - 3 ||
+        count >= (int)(sizeof(params_ptr) / sizeof(params_ptr[0])) - 1)
+    {
+      print_error(asm_context, "Macro parameters too long");
+      asm_context->error = 1;
+      return nullptr;
+    }
+
     if (ch == '\\' && (in_string || in_ticks))
     {
       params[ptr++] = ch;
@@ -655,14 +663,6 @@ char *macros_expand_params(
     if (ch == '\n' || ch == EOF)
     {
       print_error(asm_context, "Macro expects ')'");
-      asm_context->error = 1;
-      return nullptr;
-    }
-
-    if (ptr >= (int)sizeof(params) - 3 ||
-        count >= (int)(sizeof(params_ptr) / sizeof(params_ptr[0])) - 1)
-    {
-      print_error(asm_context, "Macro parameters too long");
       asm_context->error = 1;
       return nullptr;
     }
@@ -701,6 +701,13 @@ for (int n = 0; n < count; n++)
 }
 #endif
 
+  if (asm_context->def_param_stack_count >= MAX_NESTED_MACROS)
+  {
+    print_error(asm_context, "Macros nested too deeply");
+    asm_context->error = 1;
+    return nullptr;
+  }
+
   ptr = asm_context->def_param_stack_ptr[asm_context->def_param_stack_count];
 
   while (*define != 0)
@@ -708,6 +715,13 @@ for (int n = 0; n < count; n++)
     if (*define == 1)
     {
       define++;
+
+      if (ptr + strlen(params + params_ptr[((int)*define) - 1]) >= PARAM_STACK_LEN)
+      {
+        print_error(asm_context, "Macro expansion too long");
+        asm_context->error = 1;
+        return nullptr;
+      }
 
       strcpy(asm_context->def_param_stack_data + ptr, params + params_ptr[((int)*define) - 1]);
 
